@@ -34,7 +34,7 @@ const c09K = 3
 const c09Proto = protocol.ID("/sim/kad/1.0.0")
 
 type c09cfg struct {
-	state     string // "empty", "small", "full", "huge"
+	state     string // "empty", "small", "full", "huge", "huge512" (exactly message-limit / record-limit providers)
 	mode      string // "server", "client"
 	chunk, of int
 	bytesOnly bool
@@ -42,9 +42,9 @@ type c09cfg struct {
 
 func c09Configs(tier string) []vmc.Cfg {
 	var out []vmc.Cfg
-	for _, st := range []string{"empty", "small", "full", "huge"} {
+	for _, st := range []string{"empty", "small", "full", "huge", "huge512"} {
 		chunks := 8
-		if st == "huge" {
+		if strings.HasPrefix(st, "huge") {
 			chunks = 2
 		}
 		for i := 0; i < chunks; i++ {
@@ -142,13 +142,13 @@ func c09Run(x *vmc.X, cfg vmc.Cfg) {
 	e := &c09env{x: x, l: l, vkey: kid.KeyWithPrefix("v", "000", 0), pkey: kid.Mh("000", 0)}
 	e.inRT, e.outsider, e.second = kid.Peer("000", 1), kid.Peer("111", 9), kid.Peer("110", 9)
 	// server state
-	nMembers := map[string]int{"empty": 0, "small": 1, "full": c09K + 2, "huge": c09K + 2}[c.state]
+	nMembers := map[string]int{"empty": 0, "small": 1, "full": c09K + 2, "huge": c09K + 2, "huge512": c09K + 2}[c.state]
 	cells := []string{"000", "001", "010", "100", "110", "111"}
 	for i := 0; i < nMembers; i++ {
 		id := kid.Peer(cells[i], 1)
 		e.members = append(e.members, id)
 		n := 1
-		if c.state == "huge" {
+		if strings.HasPrefix(c.state, "huge") {
 			n = 900 // ~9 KiB of addresses per member
 		}
 		for j := 0; j < n; j++ {
@@ -165,15 +165,22 @@ func c09Run(x *vmc.X, cfg vmc.Cfg) {
 		x.Failf("C09/setup", "%v", err)
 		return
 	}
-	nProv := map[string]int{"empty": 0, "small": 3, "full": 3, "huge": 520}[c.state]
+	// huge512: (almost) as many providers as maximal records fit into the transport limit by division (4 MiB / 8 KiB = 512;
+	// two more are added by the ADD_PROVIDER requests of the run), each with a maximal record - the per-record framing and
+	// the closer peers make the sum exceed the limit
+	nProv := map[string]int{"empty": 0, "small": 3, "full": 3, "huge": 520, "huge512": 510}[c.state]
 	for i := 0; i < nProv; i++ {
 		ai := peer.AddrInfo{ID: kid.Peer("1", 100+i)}
-		n := 1
-		if c.state == "huge" {
-			n = 880
-		}
-		for j := 0; j < n; j++ {
-			ai.Addrs = append(ai.Addrs, c09PubAddr(100000+i*1000+j))
+		if strings.HasPrefix(c.state, "huge") {
+			// the provider store keeps a bounded number of addresses per provider, so a record of exactly 8 KiB needs long
+			// addresses: four /dns4 names of 2030, 2030, 2029 and 2029 bytes (34-byte id, connection flag: 2+34 + 2 + 4*3 + 8118 + 4*6 = 8192)
+			for j := 0; j < 4; j++ {
+				label := fmt.Sprintf("p%04d-%d-", i, j)
+				label += strings.Repeat("x", 2030-j/2-len(label))
+				ai.Addrs = append(ai.Addrs, ma.StringCast("/dns4/"+label+"/tcp/1"))
+			}
+		} else {
+			ai.Addrs = append(ai.Addrs, c09PubAddr(100000+i*1000))
 		}
 		if err := l.d.providerStore.AddProvider(l.ctx, e.pkey, ai); err != nil {
 			x.Failf("C09/setup", "%v", err)
@@ -364,6 +371,9 @@ func c09One(e *c09env, c c09cfg, m *pb.Message, sender peer.ID, shape, rk, pk st
 					return false
 				}
 			}
+		}
+		if ty == pb.Message_GET_PROVIDERS && sizes[0] > network.MessageSizeMax-2*pb.MaxPeerRecordSize {
+			vmc.Count("get_providers_replies_within_two_records_of_the_limit", 1)
 		}
 		if (ty == pb.Message_FIND_NODE || ty == pb.Message_GET_PROVIDERS) && sizes[0] > network.MessageSizeMax {
 			x.Failf("C09/reply-over-message-limit", "%s: reply of %d bytes", shape, sizes[0])
